@@ -5,6 +5,7 @@ from .. import astutil as A
 from .. import paths as P
 from ..loader import methods
 from ..selftest.runner import M, TW, V
+from . import common as K
 
 PROPERTY = "C19"
 EXPLANATION = (
@@ -46,13 +47,28 @@ def is_changed_store(s):
     return None
 
 
-def write_calls(stmt):
+def write_calls(stmt, nm=None):
     out = []
     for c in A.walk_local(stmt):
         if isinstance(c, ast.Call) and isinstance(c.func, ast.Attribute):
-            if A.src(c.func) == "self._write_data" or (c.func.attr == "write" and A.src(c.func.value) == "data"):
+            if A.src(c.func) == "self._write_data" or (c.func.attr == "write" and A.src_with(c.func.value, nm or {}) == "data"):
                 out.append(c)
     return out
+
+
+def write_roles(res, fn, loop):
+    """Names of the locals of Write.run, recovered from their defining expressions."""
+    q = lambda s: s.replace('"', "'")
+    return K.local_roles(fn, [
+        (lambda v, S: isinstance(v, ast.Call) and res.call_canon(v) == "lena.flow.functions.get_data_context"
+         and A.src(v.args[0]) == loop.target.id, ("data", "context")),
+        (lambda v, S: q(S(v)).startswith("context.get('output'"), "outputc"),
+        (lambda v, S: isinstance(v, ast.Call) and A.src(v.func) == "self._make_filename", ("dirname", "filename", "fileext", "filepath")),
+        (lambda v, S: q(S(v)).startswith("outputc.get('changed'") or q(S(v)) == "outputc['changed']", "changed"),
+        (lambda v, S: isinstance(v, ast.Call) and res.call_canon(v) in ("builtins.open", "io.open"), "fil"),
+        (lambda v, S: isinstance(v, ast.Call) and isinstance(v.func, ast.Attribute) and v.func.attr == "read", "existing_data"),
+        (lambda v, S: isinstance(v, ast.Call) and res.call_canon(v) == "os.path.dirname" and S(v.args[0]) == "filepath", "curdir"),
+    ], res=res, scope=loop)
 
 
 def branch_tag(lits):
@@ -73,6 +89,8 @@ def check_write(ctx):
     if not ctx.require(loop is not None, "C19-a", fn, "Write.run: main loop not found"):
         return
     var = loop.target.id
+    nm = write_roles(res, fn, loop)
+    S = lambda node: A.src_with(node, nm)
     n_w = 0
     seen = set()
     entry_names = set()
@@ -82,18 +100,18 @@ def check_write(ctx):
             if ".get('changed'" in s or s.endswith("['changed']"):
                 entry_names.add(n.targets[0].id)
     for p in P.loop_body_paths(loop):
-        lits = p.literal_srcs()
+        lits = K.lit_srcs(p, nm)
         ys = [i for i, y in p.yields()]
         for i, e in enumerate(p.ev):
             if e[0] not in ("stmt", "partial"):
                 continue
-            for c in write_calls(e[1]):
+            for c in write_calls(e[1], nm):
                 nxt = [y for y in ys if y > i]
                 end = nxt[0] if nxt else len(p.ev)
                 flagged = any(ev[0] == "stmt" and is_changed_store(ev[1]) is not None and A.is_const(is_changed_store(ev[1]), True)
                               for ev in p.ev[i + 1:end])
                 tag = branch_tag(lits)
-                key = (A.src(c), tag, flagged)
+                key = (S(c), tag, flagged)
                 if key in seen:
                     continue
                 seen.add(key)
@@ -101,7 +119,7 @@ def check_write(ctx):
                 ctx.check("C19-a", flagged, c, "Write.run writes the file (%s) on the path [%s] and yields without setting "
                           "output.changed = True: a downstream converter that sees an unchanged or missing flag keeps a stale artefact"
                           % (A.src(c), p.describe()), detail="write on path [%s] is followed by changed = True" % tag,
-                          construct="%s @ %s" % (A.src(c), tag), path=p)
+                          construct="%s @ %s" % (S(c), tag), path=lits)
         # (b) stores
         for i, e in enumerate(p.ev):
             if e[0] != "stmt":
@@ -112,13 +130,13 @@ def check_write(ctx):
             if A.is_const(v, True):
                 continue
             ok = isinstance(v, ast.Name) and v.id in entry_names and not rebound_between(p, v.id, i)
-            key = ("store", A.src(e[1]), branch_tag(lits))
+            key = ("store", S(e[1]), branch_tag(lits))
             if key in seen:
                 continue
             seen.add(key)
             ctx.check("C19-b", ok, e[1], "Write.run stores `%s` into output.changed on path [%s]: only True or the value read on entry "
                       "may be stored (a True set upstream must stay true downstream)" % (A.src(v), p.describe()),
-                      detail="store of the incoming flag `%s`" % A.src(v), construct="%s @ %s" % (A.src(e[1]), branch_tag(lits)), path=p)
+                      detail="store of the incoming flag `%s`" % S(v), construct="%s @ %s" % (S(e[1]), branch_tag(lits)), path=p)
     ctx.instances_floor("C19-a", n_w, 4, "write sites x branches in Write.run")
     # entry read has default False
     for n in A.walk_local(loop):
@@ -129,12 +147,12 @@ def check_write(ctx):
                           % (A.src(v.args[1]) if len(v.args) > 1 else "None"), detail="incoming flag defaults to False")
     # (c) an unchanged comparison reaches no write; existing file rewritten only under overwrite / difference
     for p in P.loop_body_paths(loop):
-        lits = p.literal_srcs()
+        lits = K.lit_srcs(p, nm)
         if "os.path.exists(filepath)" not in lits:
             continue
         for e in p.ev:
             if e[0] == "stmt":
-                for c in write_calls(e[1]):
+                for c in write_calls(e[1], nm):
                     if A.src(c.func) != "self._write_data":
                         continue
                     ok = "self._overwrite" in lits or "data != existing_data" in lits
@@ -146,7 +164,7 @@ def check_write(ctx):
                               "being different: an unchanged run must rewrite nothing" % p.describe(),
                               detail="existing file rewritten only under overwrite or data != existing_data", path=p,
                               construct="rewrite @ " + ",".join(key[1]))
-    check_write_path_var(ctx, fn, loop)
+    check_write_path_var(ctx, fn, loop, nm)
 
 
 def rebound_between(p, name, upto):
@@ -162,27 +180,28 @@ def rebound_between(p, name, upto):
     return False
 
 
-def check_write_path_var(ctx, fn, loop):
+def check_write_path_var(ctx, fn, loop, nm):
     res = ctx.res
+    S = lambda node: A.src_with(node, nm)
     uses = {}
     for n in A.walk_local(loop):
         if isinstance(n, ast.Call):
             s = A.src(n.func)
             canon = res.canon(n.func)
             if s == "self._write_data" and n.args:
-                uses.setdefault("written", set()).add(A.src(n.args[0]))
-            elif isinstance(n.func, ast.Attribute) and n.func.attr == "write" and A.src(n.func.value) == "data" and n.args:
-                uses.setdefault("written", set()).add(A.src(n.args[0]))
-            elif canon == "os.path.exists" and n.args and A.src(n.args[0]) != "curdir":
-                uses.setdefault("tested", set()).add(A.src(n.args[0]))
+                uses.setdefault("written", set()).add(S(n.args[0]))
+            elif isinstance(n.func, ast.Attribute) and n.func.attr == "write" and S(n.func.value) == "data" and n.args:
+                uses.setdefault("written", set()).add(S(n.args[0]))
+            elif canon == "os.path.exists" and n.args and S(n.args[0]) != "curdir":
+                uses.setdefault("tested", set()).add(S(n.args[0]))
             elif canon in ("builtins.open", "io.open") and n.args:
-                uses.setdefault("read", set()).add(A.src(n.args[0]))
+                uses.setdefault("read", set()).add(S(n.args[0]))
         elif isinstance(n, ast.Assign):
             for t in n.targets:
                 if isinstance(t, ast.Subscript) and A.const(t.slice) == "filepath":
-                    uses.setdefault("stored", set()).add(A.src(n.value))
+                    uses.setdefault("stored", set()).add(S(n.value))
         elif isinstance(n, ast.Yield) and isinstance(n.value, ast.Tuple) and n.value.elts:
-            uses.setdefault("yielded", set()).add(A.src(n.value.elts[0]))
+            uses.setdefault("yielded", set()).add(S(n.value.elts[0]))
     allv = set()
     for v in uses.values():
         allv |= v
@@ -193,6 +212,8 @@ def check_write_path_var(ctx, fn, loop):
     if len(allv) != 1:
         return
     name = allv.pop()
+    actual = [k for k, v in nm.items() if v == name]
+    name = actual[0] if actual else name
     defs = [n for n in A.walk_local(loop) if isinstance(n, (ast.Assign, ast.AugAssign)) and any(name in A.target_names(t) for t in A.assigned_targets(n))]
     ok = len(defs) == 1 and isinstance(defs[0], ast.Assign) and isinstance(defs[0].value, ast.Call) and A.src(defs[0].value.func) == "self._make_filename"
     ctx.check("C19-d", ok, loop, "`%s` is not defined exactly once from self._make_filename(...)" % name,
@@ -211,8 +232,10 @@ def check_write_path_var(ctx, fn, loop):
                     last = [a for a in mf.body if isinstance(a, ast.Assign) and any(A.src(t) == rv.id for t in a.targets)]
                     if last:
                         v = last[-1].value
+                        first = rets[0].value.elts[0]
                         okj = isinstance(v, ast.Call) and res.canon(v.func) == "os.path.join" and len(v.args) == 3 \
-                            and A.src(v.args[0]) == "self.output_directory" and A.src(v.args[1]) == "dirname"
+                            and A.src(v.args[0]) == "self.output_directory" and isinstance(first, ast.Name) \
+                            and A.src(v.args[1]) == first.id
     ctx.check("C19-d", okj, mf, "_make_filename does not build the path as os.path.join(self.output_directory, dirname, <file name>)",
               detail="path = os.path.join(self.output_directory, dirname, filename[.ext])", construct="path-join")
 
@@ -324,25 +347,41 @@ def check_groups(ctx):
     ctx.check("C19-b", okg, gp, "group_plots does not set the group's output.changed to any(members' output.changed)",
               detail="group_plots: changed = any(members)", construct="group_plots-any")
     ug = ctx.tree.func("lena.flow.group_plots", "_update_with_group")
+    ups = A.func_params(ug)
+    q = lambda x: x.replace('"', "'")
+    is_flag_lookup = lambda v, of: isinstance(v, ast.Call) and res.call_canon(v) == "lena.context.functions.get_recursively" \
+        and len(v.args) >= 2 and A.src(v.args[0]) == of and A.const(v.args[1]) == "output.changed"
+    gm = K.local_roles(ug, [
+        (lambda v, S: is_flag_lookup(v, ups[0]), "context_changed"),
+        (lambda v, S: isinstance(v, ast.Call) and A.call_name(v) == "set" and v.args and isinstance(v.args[0], (ast.GeneratorExp, ast.ListComp))
+         and is_flag_lookup(v.args[0].elt, A.src(v.args[0].generators[0].target)) and A.src(v.args[0].generators[0].iter) == ups[1]
+         and not v.args[0].generators[0].ifs, "all_changed"),
+    ], res=res)
+    # the flag that is finally stored with update_recursively(context, "output.changed", <flag>)
+    for c in A.walk_local(ug):
+        if isinstance(c, ast.Call) and res.call_canon(c) == "lena.context.functions.update_recursively" and len(c.args) == 3 \
+                and A.const(c.args[1]) == "output.changed" and isinstance(c.args[2], ast.Name) and A.src(c.args[0]) == ups[0]:
+            gm.setdefault(c.args[2].id, "changed")
     # on every path where `changed` ends up False, the condition includes not any(all_changed)
     n = 0
     for p in P.paths_of(ug):
         for i, e in enumerate(p.ev):
-            if e[0] == "stmt" and isinstance(e[1], ast.Assign) and any(A.src(t) == "changed" for t in e[1].targets):
+            if e[0] == "stmt" and isinstance(e[1], ast.Assign) and any(A.src_with(t, gm) == "changed" for t in e[1].targets):
                 v = e[1].value
-                lits = P.Path(p.ev[:i]).literal_srcs()
+                lits = K.lit_srcs(p, gm, upto=i)
                 if A.is_const(v, False):
                     n += 1
                     ctx.check("C19-b", "not any(all_changed)" in lits, e[1], "_update_with_group sets changed = False on a path that does not "
                               "exclude a true member flag [%s]" % " and ".join(lits), detail="False only if no member (nor the group) changed",
-                              construct="update_with_group-false", path=p)
+                              construct="update_with_group-false", path=lits)
                 elif A.is_const(v, True):
                     ctx.check("C19-b", "any(all_changed)" in lits, e[1], "_update_with_group sets changed = True not under any(all_changed)",
-                              detail="True when any member changed", construct="update_with_group-true", path=p)
+                              detail="True when any member changed", construct="update_with_group-true", path=lits)
     ctx.instances_floor("C19-b/group", n, 1, "False-assignments in _update_with_group")
     # all_changed collects the members' and the group's own flag
-    src = A.src(ug)
-    ctx.check("C19-b", "all_changed.add(context_changed)" in src and "for c in new_grp_context" in src, ug,
+    adds = [c for c in A.walk_local(ug) if isinstance(c, ast.Call) and isinstance(c.func, ast.Attribute) and c.func.attr == "add"
+            and A.src_with(c.func.value, gm) == "all_changed" and len(c.args) == 1 and A.src_with(c.args[0], gm) == "context_changed"]
+    ctx.check("C19-b", len(adds) == 1 and "all_changed" in gm.values() and A.enclosing(adds[0], (ast.If, ast.For, ast.While)) is None, ug,
               "_update_with_group does not combine the flags of all members and of the group itself",
               detail="all member flags and the group's flag are combined", construct="update_with_group-members")
 
@@ -350,11 +389,24 @@ def check_groups(ctx):
 # -- MakeFilename -------------------------------------------------------------------
 
 def check_make_filename(ctx):
+    res = ctx.res
     fn = ctx.tree.func("lena.output.make_filename", "MakeFilename.__call__")
     loops = [n for n in A.walk_local(fn) if isinstance(n, ast.For) and A.src(n.iter) == "self._methods"]
-    if not ctx.require(len(loops) == 1, "C19-e", fn, "MakeFilename.__call__: loop over self._methods not found"):
+    if not ctx.require(len(loops) == 1 and isinstance(loops[0].target, ast.Tuple) and len(loops[0].target.elts) == 2, "C19-e", fn,
+                       "MakeFilename.__call__: loop `for key, method in self._methods` not found"):
         return
     loop = loops[0]
+    val = [p for p in A.func_params(fn) if p != "self"][0]
+    is_lookup = lambda v, key: isinstance(v, ast.Call) and res.call_canon(v) == "lena.context.functions.get_recursively" \
+        and len(v.args) >= 2 and A.const(v.args[1]) == key
+    nm = K.local_roles(fn, [
+        (lambda v, S: isinstance(v, ast.Call) and res.call_canon(v) == "lena.flow.functions.get_context" and A.src(v.args[0]) == val, "context"),
+        (lambda v, S: S(v) == "self._methods", ("key", "meth")),
+        (lambda v, S: isinstance(v, ast.Call) and S(v.func) == "meth", "res"),
+        (lambda v, S: is_lookup(v, "output.prefix"), "prefix"),
+        (lambda v, S: is_lookup(v, "output.suffix"), "suffix"),
+    ], res=res)
+    S = lambda node: A.src_with(node, nm)
     n_store = 0
     seen = set()
     for p in P.loop_body_paths(loop):
@@ -363,7 +415,7 @@ def check_make_filename(ctx):
         if not stores:
             continue
         try:
-            cases = [atoms_of_case(c) for c in p.cases()]
+            cases = [[(S(t).replace('"', "'"), pol) for t, pol in c] for c in p.cases()]
         except Exception:
             continue
         for c in cases:
@@ -390,21 +442,22 @@ def check_make_filename(ctx):
     ctx.instances_floor("C19-e", n_store, 2, "name-key store cases")
     # prefix/suffix use => delete
     for part in ("prefix", "suffix"):
-        used = [n for n in A.walk_local(loop) if isinstance(n, ast.Assign) and any(A.src(t) == part for t in n.targets)
+        used = [n for n in A.walk_local(loop) if isinstance(n, ast.Assign) and any(S(t) == part for t in n.targets)
                 and "output.%s" % part in A.src(n.value)]
         dels = [n for n in A.walk_local(loop) if isinstance(n, ast.Delete) and any(
-            A.src(t).replace('"', "'") == "context['output']['%s']" % part for t in n.targets)]
+            S(t).replace('"', "'") == "context['output']['%s']" % part for t in n.targets)]
         ok = len(used) == 1 and len(dels) == 1
         if ok:
             d = dels[0]
             guard = A.enclosing(d, (ast.If,))
-            ok = guard is not None and A.src(guard.test) == part and d.lineno > used[0].lineno \
+            ok = guard is not None and S(guard.test) == part and d.lineno > used[0].lineno \
                 and A.enclosing(used[0], (ast.If,)) is A.enclosing(guard, (ast.If,))
         ctx.check("C19-e", ok, loop, "MakeFilename uses output.%s in the file name without deleting it afterwards (or deletes it elsewhere): "
                   "the %s would be applied again by the next MakeFilename" % (part, part),
                   detail="output.%s deleted after it is merged into the file name" % part, construct="%s-delete" % part)
     # res = prefix + res + suffix
-    conc = [n for n in A.walk_local(loop) if isinstance(n, ast.Assign) and A.src(n.value).replace(" ", "") == "prefix+res+suffix"]
+    conc = [n for n in A.walk_local(loop) if isinstance(n, ast.Assign) and S(n.value).replace(" ", "") == "prefix+res+suffix"
+            and any(S(t) == "res" for t in n.targets)]
     ctx.check("C19-e", len(conc) == 1, loop, "MakeFilename does not build the name as prefix + res + suffix exactly once",
               detail="name = prefix + res + suffix once", construct="concat")
 
